@@ -10,11 +10,18 @@ def tasks(tier):
 
 
 TRUSTED_BASE = TRUSTED_CORE
-ASSUMPTIONS = []
-NOT_COVERED = []
-LEVEL_TEXT = "wip"
+ASSUMPTIONS = [
+    "entities, model mocks and simulators are objects with the fields connect_one reads; attribute sets are InOrOutSet values (C12's contracts)",
+    "containers of SimRunner are modelled as lazily initialised dict / list / set values with a mutation log; the success postcondition compares the log "
+    "with the specified set of mutations",
+    "the group tree is a finite tree: parent / depth / ancestor are ghost functions with induction lemmas (anc_depth, anc_comp) discharged on every run",
+    "World.connect (argument parsing, entity-pair expansion, async_requests branch) calls connect_one per attribute pair; only connect_one, "
+    "connect_async_requests, connect_interval, group_path and depth are under contract",
+]
+NOT_COVERED = ["World.connect's own argument handling (string vs tuple attribute pairs, the entity-level checks before connect_one) is not under contract", "'a rejected attribute pair leaves no data-flow behind' is proved per connect_one call; connect() with several pairs of which a later one is rejected keeps the earlier ones (as the statement allows: per pair)"]
+LEVEL_TEXT = 'connect_one raises ScenarioError IFF (source attribute not an output) or (destination attribute not an input) or (time-shifted / weak into a non-trigger input without initial data) or (weak without a common non-root group), and then has changed nothing; on success exactly the specified table entries are written (delay = connect_interval of the two groups, minimum per pair, pulled vs pushed, trigger edge iff trigger input, initial data placement, nothing else). group_path / connect_interval / depth: exact results over the ghost group tree for arbitrary depth; distinct groups are distinct objects (SimGroup identity).'
 DESIGN_REF = "DESIGN.md section 8 (C11)"
-LEVEL_NOTE = "wip"
-TECHNIQUE = "contract-based deductive verification (AST->z3 VCs on the real functions; group tree as ghost functions with induction lemmas; lazily initialised containers with mutation log for connect_one)"
-CLAIMED = False
-NA_REASON = "check under construction in this round"
+LEVEL_NOTE = 'Proved for arbitrary group trees and table contents (4 shape variants x all paths of the real connect_one). Trusted: pyvc encoder incl. the lazy-container model, C12 set contracts, z3/cvc5. Fixed through this check: F2 (1eac4d8).'
+TECHNIQUE = 'contract-based deductive verification (AST->z3 VCs on the real functions; group tree as ghost functions with induction lemmas; lazily initialised containers with mutation log for connect_one)'
+CLAIMED = True
+NA_REASON = ""
